@@ -37,7 +37,7 @@ PLAN = {
 }
 
 MODS = ["vfc_account", "vfc_queue", "vfc_account", "vfc_queue", "vfc_records", "vfc_numeric", "vfc_strings", "vfc_containers",
-        "vfc_raising", "vfc_defaults", "vfc_enums", "vfc_floats"]
+        "vfc_raising", "vfc_defaults", "vfc_enums", "vfc_floats", "vfx_handlers", "vfx_handlers", "vfx_handlers"]
 
 
 def strategy(ctx):
